@@ -102,6 +102,10 @@ def run(chk):
         rng = unparse(S.iter).endswith('prange(npartition)')
         chk.check(pok and wok and rng, 'C17-R4', TSC, Q, f'sort branch {n + 1}: stripe and its weights permuted by the same order', '',
                   f'sort branch: positions ok={pok}, weights ok={wok}, over all stripes={rng}', node=S, nontrivial=False)
+    from ..core.srcmodel import early_exits
+    ex = [e for lp in loops for e in early_exits(lp)] + [e for lp in loops for il in [_inner_loop(lp)] if il is not None for e in early_exits(il)]
+    chk.check(not ex, 'C17-R2', TSC, Q, 'no particle is skipped: no continue/break/return inside the passes', '',
+              f'{type(ex[0]).__name__.lower() if ex else ""} at line {ex[0].lineno if ex else 0}: a particle can leave a pass without being counted / moved', node=ex[0] if ex else fn, nontrivial=False)
     layout(chk, fn, H, scat)
     # ---- R5
     c07_like_key(chk, fn)
